@@ -837,6 +837,27 @@ func (m *Machine) step(st *State, fr *Frame, in ssa.Instruction) {
 		m.Model.Instr(m, st, x, []AV{a})
 	case *ssa.Lookup:
 		base, idx := ev(x.X), m.resolve(st, ev(x.Index))
+		// a package-level table that nothing writes after its initialiser: the lookup of a known key is evaluated
+		if u, ok := x.X.(*ssa.UnOp); ok && (idx.K == KInt || idx.K == KStr) {
+			if g, ok := u.X.(*ssa.Global); ok {
+				if tab := m.P.ConstMap(g); tab != nil {
+					v, found := tab[idx.String()]
+					if !found {
+						v = zeroAV(x.Type())
+						if tup, ok := x.Type().(*types.Tuple); ok {
+							v = zeroAV(tup.At(0).Type())
+						}
+					}
+					if x.CommaOk {
+						set(x, AV{K: KTuple, T: []AV{v, BoolV(found)}})
+					} else {
+						set(x, v)
+					}
+					m.Model.Instr(m, st, x, []AV{base, idx})
+					return
+				}
+			}
+		}
 		name := "?"
 		if base.K == KSym {
 			name = base.S + "[" + idx.String() + "]"
